@@ -24,6 +24,9 @@ type c20Conf struct {
 	AuditFmt   string `json:"audit_fmt,omitempty"`  // Native | JSON
 	AuditParts string `json:"audit_parts,omitempty"`
 	Strict     bool   `json:"strict,omitempty"` // deny on REQBODY_ERROR (CRS style) instead of pass
+	// AttackNolog: the rule that sees the attack marker carries nolog,auditlog: it fires without making the
+	// transaction log-relevant, so SecUploadKeepFiles RelevantOnly must not keep the uploads because of it
+	AttackNolog bool `json:"attack_nolog,omitempty"`
 	// Real is a real (non-injected) fault condition:
 	//  tmpdir-removed | tmpdir-is-file | uploaddir-removed | uploaddir-is-file |
 	//  audit-devfull | audit-dir-below-file | fsize:<N> (RLIMIT_FSIZE while the transaction runs)
@@ -97,7 +100,11 @@ func (c *c20Conf) directives(d c20Dirs) string {
 	p(`SecRule REQUEST_HEADERS:Content-Type "^application/x-www-form-urlencoded" "id:100,phase:1,pass,nolog,ctl:requestBodyProcessor=URLENCODED"`)
 	p(`SecRule REQUEST_HEADERS:Content-Type "^multipart/form-data" "id:101,phase:1,pass,nolog,ctl:requestBodyProcessor=MULTIPART"`)
 	p(`SecRule REQUEST_HEADERS:Content-Type "^application/json" "id:102,phase:1,pass,nolog,ctl:requestBodyProcessor=JSON"`)
-	p(`SecRule ARGS "@contains attack" "id:200,phase:2,pass,log,auditlog,msg:'attack seen'"`)
+	if c.AttackNolog {
+		p(`SecRule ARGS "@contains attack" "id:200,phase:2,pass,nolog,auditlog,msg:'attack seen'"`)
+	} else {
+		p(`SecRule ARGS "@contains attack" "id:200,phase:2,pass,log,auditlog,msg:'attack seen'"`)
+	}
 	p(`SecRule FILES "@contains upload" "id:210,phase:2,pass,nolog"`)
 	for ph := 1; ph <= 5; ph++ {
 		p(`SecRule REQUEST_HEADERS:X-Deny "@streq p%d" "id:%d,phase:%d,deny,status:403,log,msg:'denied'"`, ph, 300+ph, ph)
@@ -375,6 +382,8 @@ func c20Scenarios(thorough bool, r *rand.Rand) []*c20Scenario {
 	add(c20Build("multipart/relevant-nohit/engine-off2/2files", "multipart", own(c20Conf{Keep: "RelevantOnly"}),
 		c20Opts{CT: c20MultipartCT, Body: c20Multipart([]int{120, 30}, false, 20), Chunk: 150, Engine: "off2"}))
 	add(c20Build("spill/engine-off2", "spill", own(c20Conf{MemLimit: 64}), c20Opts{CT: c20FormCT, Body: c20URLEncoded(330, true), Chunk: 100, Engine: "off2", ReadBack: true}))
+	add(c20Build("multipart/relevant-hit-nolog-auditlog/2files", "multipart", own(c20Conf{Keep: "RelevantOnly", AttackNolog: true}),
+		c20Opts{CT: c20MultipartCT, Body: c20Multipart([]int{120, 30}, true, 20), Chunk: 150}))
 	add(c20Build("multipart/nodir/2files", "multipart", c20Conf{MemLimit: 64}, c20Opts{CT: c20MultipartCT, Body: c20Multipart([]int{120, 30}, true, 0), Chunk: 150}))
 	add(c20Build("multipart/strict/2files", "multipart", own(c20Conf{Keep: "Off", Strict: true}), c20Opts{CT: c20MultipartCT, Body: c20Multipart([]int{120, 30}, false, 0), Chunk: 150}))
 
